@@ -63,6 +63,7 @@ pub struct Report {
     pub out: String,
     pub t0: f64,
     pub crate_panics: Vec<String>,
+    pub extra: BTreeMap<String, Value>,
 }
 
 pub static REPORT: Mutex<Option<Report>> = Mutex::new(None);
@@ -185,6 +186,10 @@ pub fn finish() -> i32 {
             },
             "wall_s": crate::util::now_s() - r.t0,
         });
+        let mut v = v;
+        for (k, x) in r.extra.iter() {
+            v[k] = x.clone();
+        }
         (serde_json::to_string(&v).unwrap(), r.out.clone(), r.violations.len())
     });
     if out.is_empty() || out == "-" {
